@@ -329,7 +329,11 @@ class ArgumentParser(argparse.ArgumentParser):
             config_path = getattr(args_with_config_path, config_path_name.replace("-", "_"))
 
             if config_path is not None:
-                config_paths = config_path if isinstance(config_path, list) else [config_path]
+                # (`config_path` is either what was passed on the command-line: a list, or its
+                # default: `self.config_path`, which can be a single path or any sequence of paths.)
+                config_paths = (
+                    [config_path] if isinstance(config_path, (str, Path)) else list(config_path)
+                )
                 for config_file in config_paths:
                     self.set_defaults(config_file)
 
